@@ -832,6 +832,29 @@ pub fn gen(seed: u64, thorough: bool) -> Vec<String> {
     let mut g = Gen { out: vec![], rng: Rng::new(seed) };
     const CH: usize = 256;
 
+    // W. rows whose encoded bytes exceed the 64 KiB read-ahead buffer (one row per refill, a row larger than the
+    // buffer target): one non-planar format per unit size and a few more, native and foreign channels
+    {
+        let mut seen_units: Vec<usize> = vec![];
+        for (i, fm) in tab.iter().filter(|f| f.planar.is_none()).enumerate() {
+            let first_of_size = !seen_units.contains(&fm.unit_bytes);
+            if first_of_size {
+                seen_units.push(fm.unit_bytes);
+            }
+            if !(first_of_size || thorough || i % 7 == 0) {
+                continue;
+            }
+            let units = 65536 / fm.unit_bytes + 1 + (i % 3);
+            let w = units * fm.ppu;
+            if w * 2 > 1_000_000 {
+                continue;
+            }
+            let prec = (i % 3) as u32;
+            g.push(fm, native_name(fm), prec, w, 2, &format!("R:{}", 1000 + i));
+            g.push(fm, if fm.native == Channels::Rgba { "rgb" } else { "rgba" }, (prec + 1) % 3, w, 1, &format!("S:{}", 77 * i));
+        }
+    }
+
     // A. exhaustive: every value of every format whose unit has at most 16 bits, all precisions
     for fm in tab.iter().filter(|f| f.unit_bytes <= 2 && f.planar.is_none()) {
         let total = 1usize << (8 * fm.unit_bytes);
